@@ -110,6 +110,13 @@ def run(ctx, rep):
         if not found:
             rep.bad("C05.short", "read_frame known-total arm: size==remaining || size>14", loc_of(b),
                     "no closure of read_frame guards the header with (block_size == remaining) || (14 < block_size)")
+        # every place that raises ShortBlock applies the rule with the last-block exemption
+        sb_sites = [x for x in error_sites(F, "ShortBlock") if x[0].path.startswith(b.path)]
+        for eb, bi_, st_ in sb_sites:
+            sm = ok.summary(eb) if eb.kind == "Closure" else TOP
+            good_ = sm is not TOP and or_fact_match(sm, [("cmp", "^Eq$", None, None), ("cmp", "^Lt$", "const:14$", "block_size")])
+            rep.check("C05.short", "ShortBlock is raised only by the rule `size == remaining || size > 14` (a short last block is legal)", good_, eb.loc(st_["sp"]), "",
+                      "Error::ShortBlock is raised by a test that lacks the last-block exemption: a valid stream whose final block has 14 samples or fewer is refused")
         # the guard's failure must yield ShortBlock
         rep.check("C05.short", "ShortBlock raised in read_frame", any(eb.path.startswith(b.path) for eb, _, _ in error_sites(F, "ShortBlock")), loc_of(b))
 
@@ -193,6 +200,8 @@ def run(ctx, rep):
         rep.floor("C05.md5", "MD5Match sites", len(sites), 1)
         # the computed digest must come from the decoded stream: io::copy from the reader into the md5 context
         rep.check("C05.md5", "digest computed over the decoded bytes (io::copy reader->md5)", len(call_blocks(vb, r"std::io::copy$")) >= 2, loc_of(vb))
+    from rules import C03 as _C03
+    _C03.run(ctx, SubReport(rep, "C03", "C05.codes", only=r"^C03\.rfc$"))
 
 
 def _closure_root(F, b):
